@@ -966,6 +966,10 @@ def run(ctx):
         {"tasks": [(100, 100, None)], "syms": [b"a", b"a"], "sample": 3, "exe": "prog",
          "recs": [(100, True, 0, 1000), (100, True, 1, 1000), (100, False, 1, 1000), (100, False, 0, 1000)]},
         flame_witness_case(),
+        # C15_flame_total_bound_refuted replayed on the implementation: 1.2 us of run time shown as 2 samples of 1 us
+        {"tasks": [(100, 100, None)], "syms": [b"m", b"f"], "sample": 1000, "exe": "prog",
+         "recs": [(100, True, 0, 1000), (100, True, 1, 1000), (100, False, 1, 1600), (100, True, 1, 1600),
+                  (100, False, 1, 2200), (100, False, 0, 2200)]},
     ]
     n = ctx.n(150, 2500)
     d = os.path.join(ctx.scratch, "dir")
